@@ -1490,7 +1490,16 @@ func (i *interpreter) cmpEqualO(fr *frame, o cmpOpts, t types.Type, x, y value, 
 		sig := sel.Type().(*types.Signature)
 		if sig.Params().Len() == 1 && sig.Results().Len() == 1 && types.AssignableTo(t, sig.Params().At(0).Type()) {
 			if b, ok := sig.Results().At(0).Type().Underlying().(*types.Basic); ok && b.Kind() == types.Bool {
-				panic(pathAbort{"unsupported", "cmp.Equal on type with Equal method"})
+				// go-cmp tryMethod: the type's own Equal decides, at any depth
+				m := i.prog.MethodValue(sel)
+				if m == nil {
+					panic(pathAbort{"unsupported", "cmp.Equal on type with an abstract Equal method"})
+				}
+				recv, arg := x, y
+				if _, isIface := sig.Params().At(0).Type().Underlying().(*types.Interface); isIface {
+					arg = iface{t: t, v: y}
+				}
+				return i.boolTerm(callSSA(i, fr, token.NoPos, m, []value{recv, arg}, nil))
 			}
 		}
 	}
